@@ -225,6 +225,20 @@ func c13Dumpers(ds []*c13DumpOpts) (*transport.Options, context.Context, []*dump
 	return opt, ctx, all
 }
 
+// c13SendBody calls sendRequestBody whatever its current parameter list is (it gained an
+// error callback in /repo 11852b0): a method value can be inspected with a type switch, so the
+// harness compiles against either form.
+func c13SendBody(str *stream, body io.ReadCloser, dumps []*dump.Dumper) error {
+	var f interface{} = (&SingleDestinationRoundTripper{}).sendRequestBody
+	switch fn := f.(type) {
+	case func(Stream, io.ReadCloser, []*dump.Dumper) error:
+		return fn(str, body, dumps)
+	case func(Stream, io.ReadCloser, []*dump.Dumper, func(error)) error:
+		return fn(str, body, dumps, func(error) {})
+	}
+	panic(fmt.Sprintf("harness: sendRequestBody has an unknown signature %T", f))
+}
+
 func TestVerif_C13_h3sites(t *testing.T) {
 	s := verifh.New(t, "C13", "h3sites",
 		"HTTP/3 dump call sites over a fake QUIC stream, 0..2 recording dumpers (client level + request level), random part flags, a writer per part: (a) real requestStream.SendRequestHeader on requests with 0..10 headers (mixed-case names, repeated / empty / 300-byte values, cookies): request-header writers = the model's rendering (c13ghead) of the field section the reference QPACK decoder reads from the HEADERS frame written; (b) real sendRequestBody with scripted body reads (0..20 KB, 1-byte / random / whole reads, a body error) into a stream failing after `limit` bytes in a quarter of the cases: bytes on the stream, request-body writers and the failure flag = model h3Body (c13g3body); (c) real requestStream.ReadResponse on HEADERS frames with 1..12 fields (valid, invalid status / names that make the response invalid, block larger than maxHeaderBytes): response-header writers = the model's rendering of the fields sent, nothing when the frame is refused before decoding; non-trivial = at least 3 fields / 2 body reads")
@@ -312,7 +326,7 @@ func TestVerif_C13_h3sites(t *testing.T) {
 		}
 		var berr error
 		if p, bad := verifh.Safely(func() {
-			berr = (&SingleDestinationRoundTripper{}).sendRequestBody(newStream(fq, nil, nil, nil), body, all)
+			berr = c13SendBody(newStream(fq, nil, nil, nil), body, all)
 		}); bad {
 			s.Crash(fmt.Sprintf("h3sites body #%d", c), fmt.Sprint(size), p, "")
 			continue
